@@ -5,7 +5,10 @@ PROPS["C06"] = dict(
          "parked on a live key, in-memory only) and expiries +1h/+3h/+100h/already-expired(in-memory only); after an advance the generator "
          "aims the next op at a key whose expiry was just crossed with probability 1/2 and draws its kind uniformly from the nine kinds; the "
          "systematic part plays write x advance x first-touching op x follow-up for every op kind on both backends. An advance never stops "
-         "exactly on an expiry instant. non-trivial = the clock crossed an expiry and a later op was the first to touch that key; "
+         "exactly on an expiry instant. The rediswire unit lets time pass INSIDE one call of the Redis backend: a miniredis whose TTLs are aged by the real clock (catch-up FastForward before every command "
+         "and observation), the client's connection wrapped so that the k-th command of one put/putmany/create(over a record that lapses or is removed meanwhile)/cas/cas-with-forced-retry call is stalled 200-500 ms "
+         "(before forwarding for TTL-free commands, before the reply otherwise; every position enumerated once + drawn pairs); the written records must be readable until 150 ms before their ExpiresAt and gone 150 ms after it "
+         "(a failure is confirmed by two re-runs with all durations doubled). non-trivial = the clock crossed an expiry and a later op was the first to touch that key (wire unit: a stall really happened inside the call before its TTL-carrying write); "
          "distinct = hash of (driver, op list); classes first_touch_expired:<kind> give the histogram of first-touching op kinds",
     assumptions=["reference model: dead(k) <=> expiry < now; a dead key is absent for every operation",
                  "in-memory backend runs on the synctest fake clock; miniredis ages TTLs only through FastForward; Redis clamps TTLs to >= 1ms so "
@@ -13,6 +16,7 @@ PROPS["C06"] = dict(
     units=[
         dict(name="firsttouch", run="^TestC06FirstTouch$", shards=1, timeout=(300, 900)),
         dict(name="inmem", run="^TestC06InmemRapid$", checks=(3000, 30000), shards=(2, 16), timeout=(300, 1500)),
+        dict(name="rediswire", run="^TestC06RedisWire$", checks=(2, 40), shards=(1, 4), timeout=(300, 1500), shrinktime="30s"),
         dict(name="redis", run="^TestC06RedisRapid$", checks=(1500, 8000), shards=(2, 16), timeout=(300, 1500)),
     ],
 )
